@@ -110,6 +110,8 @@ class Replayer(object):
             return self.VK.from_der(vk.to_der())
         if f == 5:
             return self.VK.from_pem(vk.to_pem())
+        if self.p < 256:
+            return None       # one-byte field: a compressed point is as long as a raw one, which DER containers refuse by length
         return self.VK.from_der(vk.to_der("compressed"))
 
     def denote(self, obj):
